@@ -1127,7 +1127,11 @@ func init() {
 			}
 			lp := strings.ToLower(prop)
 			// first, in a single goroutine: deterministic even if the library shares buffers between calls
-			exploreChoiceOpts(r, lp+".returned-bytes", 3, dl, 1)
+			rb := 2 // what is shared between calls does not depend on the claims' content: two deviations in quick
+			if thorough(r) {
+				rb = 3
+			}
+			exploreChoiceOpts(r, lp+".returned-bytes", rb, dl, 1)
 			if prop == "C12" {
 				exploreChoiceOpts(r, "c12.after-prior-calls", 2, dl, 1)
 				exploreChoiceOpts(r, "c12.escaped-profile-name", 2, dl, 1)
